@@ -13,9 +13,10 @@ MANIFEST = {
  'technique': 'Lean 4 proof (structural induction on token trees / plugin trees) + differential correspondence on a live bot',
  'design_ref': 'DESIGN.md §6 C14',
 }
-THEOREMS = ['C14.eval_prefix', 'C14.eval_complete', 'C14.eval_postorder', 'C14.depth_refused', 'C14.depth_error',
-            'C14.getCommand_prefix', 'C14.getCommand_enabled', 'C14.dispatch_qualified', 'C14.dispatch_ambiguous',
-            'C14.dispatch_unique', 'C14.canonicalName_idem']
+THEOREMS = ['C14.postOrder_nodup', 'C14.eval_order', 'C14.eval_prefix', 'C14.eval_complete', 'C14.eval_postorder',
+            'C14.depth_refused', 'C14.depth_error', 'C14.getCommand_prefix', 'C14.getCommand_enabled',
+            'C14.owns_not_disabled', 'C14.dispatch_qualified', 'C14.dispatch_ambiguous', 'C14.ambiguous_runs_nothing',
+            'C14.dispatch_unique']
 TRUSTED = ['Lean 4.33.0 kernel; axioms ⊆ {propext, Classical.choice, Quot.sound}',
            'harness/c14.py: introspection of the loaded plugins (names, command methods, nested groups) into the model input; generators; canonicalisation of the bot\'s replies',
            'command bodies are abstract (behaviour fixed by the first letter of the synthetic command name, identically in harness/plugins/VtOrder*/plugin.py and in C14.vtBeh)']
